@@ -36,7 +36,9 @@ Definition ext_src (a : accessor) :=
 Definition range_src (a : accessor) :=
   match a with AccGet => gen_range_get | AccGetLazy => gen_range_get_lazy | AccGetCheap => gen_range_get_cheap end.
 
-(** MappedArray: only the bounds test (and, for [get], the delegated index) is translated.
+(** MappedArray: only the bounds test (and, for [get], the delegated index) is translated
+    ([get] hands the mapper the inner element's thunk, `self.inner.get_lazy(index).expect(..)`, or — before
+    9dc676b — its value, `self.inner.get(index)`: the same index of the same inner view either way).
     [get_lazy] answers an in-bounds index with a thunk whose evaluation is `self.arr.get(self.index)`,
     i.e. [get] at the same index: [ARest] is read that way.  [get_cheap] is constantly None (not cheap). *)
 Definition mapped_src (lazy : bool) (cached_len index : N) : acc :=
@@ -72,7 +74,7 @@ Definition decode_sres (v : view) (r : sres) : option view :=
   | SSlice f t s => Some (Slice v f t s)
   end.
 Definition pos_ok (p : option Z) : Prop :=
-  match p with Some z => (i32_min < z <= i32_max)%Z | None => True end.
+  match p with Some z => (i32_min <= z <= i32_max)%Z | None => True end.   (* an i32, nothing excluded *)
 
 (** ArrValue::extended *)
 Definition flatten_order (order : list N) (x y : list elem) : list elem :=
